@@ -270,7 +270,7 @@ def finish(ctx, acc, level, rule, exhaustive, assumptions, required_cells=(), co
         else:
             new_viol.append((key, n, recs))
 
-    rdir = os.path.join(VERIF, 'replays', prop)
+    rdir = os.path.join(os.environ.get('VERIF_REPLAY_DIR') or os.path.join(VERIF, 'replays'), prop)
     lines = []
     for key, n, recs in new_viol:
         os.makedirs(rdir, exist_ok=True)
@@ -311,8 +311,9 @@ def finish(ctx, acc, level, rule, exhaustive, assumptions, required_cells=(), co
         'coverage': cov, 'assumptions': list(assumptions),
         'wall_s': round(time.time() - ctx.t0, 3), 'violations': len(new_viol),
     }
-    os.makedirs(os.path.join(VERIF, 'evidence'), exist_ok=True)
-    epath = os.path.join(VERIF, 'evidence', prop + '.json')
+    edir = os.environ.get('VERIF_EVIDENCE_DIR') or os.path.join(VERIF, 'evidence')   # trial runs only
+    os.makedirs(edir, exist_ok=True)
+    epath = os.path.join(edir, prop + '.json')
     with open(epath, 'w') as fh:
         json.dump(ev, fh, indent=1, sort_keys=True)
     _validate_evidence(epath)
